@@ -119,6 +119,14 @@ def coq_wf_expr(case):
             f"map (fun p => Z.to_N (spec_exit c h (enc_no_tests p))) [0;1;2;3])")
 
 
+def coq_eval(tag, exprs, batch=4000):
+    """vlib.coq_eval in batches (one giant list literal per shard is too much for coqc)"""
+    out = []
+    for i in range(0, len(exprs), batch):
+        out.extend(vlib.coq_eval(tag, IMPORTS, exprs[i:i + batch], PRELUDE))
+    return out
+
+
 # ----------------------------------------------------------------------------- canonical form of an impl step
 
 RESP = {"none": [0, 0], "job_stop": [1, 0], "job_continue": [2, 0], "info_usr1": [3, 0],
@@ -214,8 +222,9 @@ def gen_res(r, want_fail=None):
 
 
 def gen_cfg(r):
-    ntests = r.choice([0, 1, 2, 2, 3, 4, 5, 6, 8])
-    sel = [t for t in range(ntests) if r.random() < 0.8]
+    ntests = r.choice([0, 1, 2, 2, 3, 4, 5, 6, 7, 8, 8, 8])
+    keep = r.choice([1.0, 0.9, 0.8, 0.8, 0.5])
+    sel = [t for t in range(ntests) if r.random() < keep]
     unsel = [t for t in range(ntests) if t not in sel]
     total = {t: r.choice([1, 1, 2, 3, 4]) for t in range(ntests)}
     return dict(ntests=ntests, sel=sel, unsel=unsel, total=total, nscripts=r.choice([0, 0, 0, 1, 2, 3]))
